@@ -18,9 +18,13 @@ def rules_text(evs, loads):
     return "\n".join(out) + "\n"
 
 
-def materialise(scn, wd, payload=False):
+def materialise(scn, wd, payload=False, dirs=None):
+    """dirs: a sub-directory name - rules and data are written into <dirs>/rules and <dirs>/data and the
+    two directories are given as arguments (walked alphabetically: r1, r2, .. / d1, d2, ..)"""
     rules, data = [], []
     rtexts, dtexts = [], []
+    rpre = (dirs + "/rules/") if dirs else ""
+    dpre = (dirs + "/data/") if dirs else ""
     for i, k in enumerate(scn["rules"]):
         if k == "ok":
             txt = rules_text(scn["ev"][i], scn["data"])
@@ -28,11 +32,11 @@ def materialise(scn, wd, payload=False):
             txt = "rule broken {\n  id == \n}\n"
         else:
             txt = "# only a comment\n"
-        rules.append(wd.write("r%d.guard" % (i + 1), txt))
+        rules.append(wd.write(rpre + "r%d.guard" % (i + 1), txt))
         rtexts.append(txt)
     for j, k in enumerate(scn["data"]):
         dtxt = ('{"id": %d}' % (j + 1)) if k == "ok" else '{"id": '
-        data.append(wd.write("d%d.json" % (j + 1), dtxt))
+        data.append(wd.write(dpre + "d%d.json" % (j + 1), dtxt))
         dtexts.append(dtxt)
     args = ["validate"]
     stdin = None
@@ -40,6 +44,8 @@ def materialise(scn, wd, payload=False):
         args += ["--payload"]
         stdin = json.dumps({"rules": rtexts, "data": dtexts})
         data = ["DATA_STDIN[%d]" % (j + 1) for j in range(len(dtexts))]
+    elif dirs:
+        args += ["-r", os.path.join(wd.path, dirs, "rules"), "-d", os.path.join(wd.path, dirs, "data")]
     else:
         for r in rules:
             args += ["-r", r]
@@ -66,7 +72,8 @@ def run_scenarios(res, out, limit=None):
     n = 0
     for scn in cases:
         payload = (n % 3 == 2)
-        args, data, stdin = materialise(scn, wd, payload)
+        dirs = ("s%d" % n) if (not payload and n % 4 == 1) else None
+        args, data, stdin = materialise(scn, wd, payload, dirs)
         rc, so, se = cli.run(args, stdin=stdin)
         n += 1
         want = scn["exit"]
@@ -74,7 +81,7 @@ def run_scenarios(res, out, limit=None):
         key = None
         if got != want:
             kind = "panic" if ("panicked" in se) else "exit-code"
-            key = "%s:%s%s:want-%d-got-%d" % (kind, scn["path"], "/payload" if payload else "", want, got)
+            key = "%s:%s%s:want-%d-got-%d" % (kind, scn["path"], "/payload" if payload else ("/dirs" if dirs else ""), want, got)
         elif scn["path"] == "structured" and not scn["aborted"]:
             # the report lists exactly the evaluated pairs with their statuses
             try:
